@@ -18,12 +18,16 @@ PENDING = {
  "C03":"check under construction in this session (stream scenario); claimed once its quick command exists",
  "C04":"check under construction in this session (hostile scenario)",
  "C05":"check under construction in this session (proxy scenario)",
- "C07":"check under construction in this session (corrupt scenario)",
  "C15":"check under construction in this session (exchange scenario)",
  "C18":"check under construction in this session (share scenario)",
 }
 TECH = "deterministic simulation with fault injection"
 CLAIMED = {
+ "C07": dict(cat="fault_enumeration",
+   text="segments encoded by the real codec are altered in transit inside the checksums' guaranteed detection range and given to the real decoder: header+CRC-24 patterns enumerated exhaustively up to weight 4 (quick) / 7 (thorough) for both header sizes, payload+CRC-32 single flips exhaustively for payloads up to 4 KiB, pairs and bursts enumerated or sampled as listed in the evidence; plus seeded live v5 sessions over the simulated network with one segment corrupted in transit (nothing from it may be delivered, the receiver must close)",
+   ref="DESIGN.md §5 C07",
+   note="exhaustive only for the sub-spaces the evidence lists under enumerated_subspaces; alterations outside the guaranteed range are not injected; the direct family calls DecodeSegment without the scheduler (there is nothing to interleave), the live family runs under the full simulator",
+   tech=TECH+" (bit-flip fault enumeration on segments in transit; live-connection corruption with delivery oracle)"),
  "C10": dict(cat="exploration",
    text="seeded fault-free sessions on a real client connection with 1-8 concurrent senders; the peer answers in drawn permutations with gaps, multi-page responses, interleaved events and spurious responses; exactly-once, in-order routing checked over the recorded history",
    ref="DESIGN.md §5 C10",
